@@ -13,6 +13,12 @@ for pid in ENABLED:
     if g:
         print("generate:", mod.__name__); g()
     targets += list(getattr(mod, "TARGETS", []))
+    targets += [os.path.relpath(f, C.COQ) + "o" for f in glob.glob(C.COQ + "/Props/Properties_%s*.v" % pid)]
+    # extraction files of the directories the property file depends on
+    for f in C.v_closure([os.path.relpath(x, C.COQ) for x in glob.glob(C.COQ + "/Props/Properties_%s*.v" % pid)]):
+        ex = os.path.join(C.COQ, os.path.dirname(f), "Extract.v")
+        if os.path.exists(ex):
+            targets.append(os.path.relpath(ex, C.COQ) + "o")
 bad = C.grep_gate()
 if bad:
     print("forbidden constructs:", bad); sys.exit(1)
